@@ -48,6 +48,41 @@ def calc_mode(rng, n):
                         pass
 
 
+def sweep_mode(rng, n):
+    """NB6/NB7-shaped parameter sweeps on one System object, incomplete Systems, re-use of PRISM objects"""
+    for cfg in [systems.SYS2, systems.SYS3][:max(1, min(2, n))]:
+        s = systems.build(cfg)
+        t0 = cfg['types'][0]
+        for i in range(3 + n):
+            s.density[t0] = cfg['rho'][t0] * (1.0 + 0.05 * i)
+            if i % 2:
+                s.kT = cfg['kT'] * (1.0 + 0.1 * i)
+            p = s.solve(options={'disp': False, 'maxiter': 400})
+            pyPRISM.calculate.pair_correlation(p)
+        q = s.createPRISM()
+        s.diameter[t0] = cfg['diam'][t0]
+        q.solve(options={'disp': False, 'maxiter': 400})
+    for k in range(2 + n):
+        u = pyPRISM.System(['A', 'B'], kT=1.0)
+        steps = [lambda: u.density.__setitem__(['A', 'B'], 0.25), lambda: u.diameter.__setitem__(['A', 'B'], 1.0),
+                 lambda: u.potential.setUnset(pyPRISM.potential.HardSphere()),
+                 lambda: u.closure.setUnset(pyPRISM.closure.PercusYevick()),
+                 lambda: u.omega.setUnset(pyPRISM.omega.SingleSite()),
+                 lambda: setattr(u, 'domain', pyPRISM.Domain(length=256, dr=0.125))]
+        rng.shuffle(steps)
+        for st in steps:
+            for call in (u.check, u.createPRISM, lambda: u.solve(options={'disp': False, 'maxiter': 50})):
+                if rng.random() < 0.5:
+                    try:
+                        call()
+                    except ValueError:
+                        pass
+            st()
+        u.omega['A', 'B'] = pyPRISM.omega.NoIntra()
+        u.check()
+        u.createPRISM()
+
+
 def main():
     seed, mode, n = int(sys.argv[1]), sys.argv[2], int(sys.argv[3])
     rng = random.Random(seed)
@@ -55,6 +90,8 @@ def main():
         warnings.simplefilter('ignore')
         if mode == 'calc':
             calc_mode(rng, n)
+        elif mode == 'sweep':
+            sweep_mode(rng, n)
 
 
 if __name__ == '__main__':
